@@ -19,6 +19,9 @@ ALSO = {
     "C03-parse-header7-guard": ["C07"], "C11-cmpp20-dest-u8-product": ["C01", "C02"], "C02-smgp-submit-time-order": ["C01"],
     "C14-boundary-hoisted-before-fallback": ["C06"], "C08-validator-ascii-fastpath": ["C05", "C09"], "C12-private-writer-no-copy": ["C13"],
     "C07-header7-only-rejected": ["C03"],
+    "C10-smgp-activetest-shared-resp": ["C13"], "C09-canencode-after-split-error": ["C07"], "C06-packed-fastpath-no-boundary": ["C14"],
+    "C20-readuint8-fastpath-after-error": ["C03"], "C16-readtlvs-remaining-u16": ["C01", "C11"], "C01-smgp-options-trailing-empty": ["C16", "C11"],
+    "C15-connectresp-trim-digest": ["C01"],
 }
 
 
